@@ -9,7 +9,8 @@ Driver for identity resolution (C11).
          item  = root>module:name=module:name,…      one per identity statement of every loaded (sub)module
                                                      (root = its name@latest-revision),
                                                      Values in model order
-               | @root:leaf=module:name | @root:leaf=-   identityref leaves (as ToEntry(root) resolves them)
+               | @root:node=declRoot>module:name~module:name,… | @root:node=-   identityref leaves/leaf-lists (direct, union
+                                                     member, local typedef) as ToEntry(root) resolves them: object + list seen
          error = file:line:col:class
       -> linkfail <error>*              an include/import did not resolve (outside the C11 model)
       -> loaderr | fuel | outsideModel
@@ -43,9 +44,16 @@ def identityItems (r : Registry) (res : Result) : List String :=
         | none => []
       m.fullName ++ ">" ++ vtxText v ++ "=" ++ ",".intercalate (vals.map vtxText)
 
-def leafItems (leaves : List (String × String × Except Err DEntry)) : List String :=
-  leaves.map fun (root, leaf, res) =>
-    "@" ++ root ++ ":" ++ leaf ++ "=" ++ (match res with | .ok e => vtxText e.vtx | .error _ => "-")
+/-- `@root:node=declaringRoot>module:name~v,…`: the identity object the type points at (by the
+(sub)module revision that declares it) and the list seen through it. -/
+def leafItems (r : Registry) (res : Result) (leaves : List (String × String × Except Err DEntry)) : List String :=
+  leaves.map fun (root, leaf, x) =>
+    "@" ++ root ++ ":" ++ leaf ++ "=" ++
+      (match x with
+       | .ok e =>
+         (match r.byId e.root with | some m => m.fullName | none => "?") ++ ">" ++ vtxText e.vtx ++ "~" ++
+           ",".intercalate ((res.vals e.vtx).map vtxText)
+       | .error _ => "-")
 
 def encAll (l : List String) : String := String.join (l.map fun s => " " ++ encStr s)
 
@@ -57,8 +65,8 @@ def runIdent (oracle : Nat) (files : List SrcFile) : String :=
     | .outOfFuel => "fuel"
     | .linkFailed errs => "linkfail" ++ encAll (sortStrings (dedup (errs.map Err.render)))
     | .done res leaves =>
-      let items := sortStrings (identityItems r res ++ leafItems leaves)
-      let errs := sortStrings (dedup ((processErrs res leaves).map Err.render))
+      let items := sortStrings (identityItems r res ++ leafItems r res leaves)
+      let errs := sortStrings (dedup ((processErrs r res leaves).map Err.render))
       "ok" ++ encAll items ++ " ;" ++ encAll errs
 
 /-! ### spec.ident -/
@@ -78,11 +86,32 @@ def parseIdentityItem (s : String) : Option (String × (String × String) × Lis
     | _ => none
   | _ => none
 
-/-- `@root:leaf=v` → (root:leaf, observed vertex) -/
+/-- The list an identityref is seen to carry: (vertex, list) from `@k=root>module:name~v,…`. -/
+def parseLeafSeen (s : String) : Option ((String × String) × List (String × String)) :=
+  if s.startsWith "@" then
+    match (s.drop 1).toString.splitOn "=" with
+    | [_, v] =>
+      match v.splitOn "~" with
+      | [obj, vs] =>
+        let vtx := match obj.splitOn ">" with
+          | [_, x] => x
+          | _ => obj
+        some (parseVertex vtx, if vs.isEmpty then [] else (vs.splitOn ",").map parseVertex)
+      | _ => none
+    | _ => none
+  else none
+
+/-- `@root:node=declRoot>module:name~…` → (root:node, observed vertex) -/
 def parseLeafItem (s : String) : Option (String × Option (String × String)) :=
   if s.startsWith "@" then
     match (s.drop 1).toString.splitOn "=" with
-    | [k, v] => some (k, if v == "-" then none else some (parseVertex v))
+    | [k, v] =>
+      -- v = declaringRoot>module:name~values
+      let obj := ((v.splitOn "~").headD "")
+      let vtx := match obj.splitOn ">" with
+        | [_, x] => x
+        | _ => obj
+      some (k, if v == "-" then none else some (parseVertex vtx))
     | _ => none
   else none
 
@@ -96,9 +125,11 @@ def runSpec (files : List SrcFile) (items : List String) (nErrors : Nat) : Strin
       let partNames := ps.map (·.fullName)
       let vals := (items.filterMap parseIdentityItem).filterMap fun (root, v, l) =>
         if partNames.contains root then some (v, l) else none
+      -- the list seen through an identityref has to be the list of the identity it names
+      let vals := vals ++ items.filterMap parseLeafSeen
       let leaves := items.filterMap parseLeafItem
       let rfs := (refs r).map fun (m, leaf, arg) =>
-        (arg.bind (refTarget r G m), ((leaves.find? (·.1 == m.name ++ ":" ++ leaf)).bind (·.2)))
+        (arg.bind (refTarget r G m), ((leaves.find? (·.1 == m.fullName ++ ":" ++ leaf)).bind (·.2)))
       match judge G vals rfs nErrors with
       | .holds => "holds"
       | .violates why => "violates " ++ encStr why
